@@ -46,6 +46,9 @@ def rs_exhaustive(pts, rng, apis=("recv",), cbs=(None,), orders=1, probe="each",
     return execs
 
 
+LENGTHS = list(range(1, 81)) + [96, 100, 127, 128, 129, 255, 256, 257, 1000, 1316, 1400, 1500]
+
+
 def random_ldpc(rng, count, kmax, cbs=(None,), apis=("recv", "setavail"), payloads=("id", "rnd"), dup=True,
                 finish_choices=(True, True, False), probe_choices=("end", "end", "each")):
     execs = []
@@ -60,7 +63,7 @@ def random_ldpc(rng, count, kmax, cbs=(None,), apis=("recv", "setavail"), payloa
         seed = rng.randint(1, 2 ** 31 - 2)
         payload = rng.choice(payloads)
         extra = rng.choice([0, 0, 1, 3, 8])
-        length = gen.need_len(3, k, 0) + extra if payload == "id" else rng.choice([1, 2, 3, 7, 8, 9, 16, 31, 33])
+        length = gen.need_len(3, k, 0) + extra if payload == "id" else rng.choice(LENGTHS)
         p = P(3, k, r, N1=n1, seed=seed, length=length, payload=payload, align=rng.choice([0, 0, 1, 3, 5, 7]))
         n = p.n
         # loss rate around the decoding threshold so that both outcomes occur
@@ -121,7 +124,7 @@ def random_rs(rng, count, nmax, cbs=(None,), apis=("recv", "setavail"), payloads
         n = rng.randint(2, min(nmax, lim))
         k = rng.randint(1, n - 1)
         payload = rng.choice(payloads)
-        length = gen.need_len(c, k, m) + rng.choice([0, 0, 1, 5]) if payload == "id" else rng.choice([1, 2, 3, 8, 15, 16, 17, 33])
+        length = gen.need_len(c, k, m) + rng.choice([0, 0, 1, 5, 11, 16, 23, 40]) if payload == "id" else rng.choice(LENGTHS)
         p = P(c, k, n - k, m=m, length=length, payload=payload, align=rng.choice([0, 0, 1, 2, 7]))
         cnt = rng.choice([k, k, k + 1, max(0, k - 1), rng.randint(0, n)])
         cnt = min(cnt, n)
@@ -214,6 +217,15 @@ def workload(pid, tier, rng):
         execs += rs_exhaustive(rs_small, rng, apis=("recv", "setavail"), orders=2 if q else 4, probe="each")
         execs += rs_exhaustive(rs_mid, rng, apis=("recv", "setavail"), orders=1, probe="end", maxsub=150 if q else 1500)
         execs += random_rs(rng, 300 if q else 4000, 255)
+        # the MDS argument rests on the generator being V_rest * V_top^-1: one (T: four) repair row(s) of EVERY k,
+        # both GF(2^8) implementations, validated by ApiTrace!DoBuild (g * V_top = V[esi])
+        for k in range(1, 255):
+            for (c, m) in ((1, 0), (2, 8)):
+                r = rng.randint(1, 255 - k)
+                esis = sorted(set(rng.sample(range(k, k + r), min(r, 1 if q else 4))))
+                execs.append(gen.encode_exec(P(c, k, r, m=m, length=k + rng.choice([0, 3])), order=esis))
+        for k in range(1, 15):
+            execs.append(gen.encode_exec(P(2, k, 15 - k, m=4)))
     elif pid == "C03":
         execs += ldpc_exhaustive(ld_small, rng, apis=("recv", "setavail"), finish=(True,), orders=1 if q else 3, probe="end")
         execs += ldpc_exhaustive(ld_mid, rng, apis=("recv",), finish=(True,), orders=1, probe="end", maxsub=800 if q else 8000)
@@ -256,7 +268,7 @@ def workload(pid, tier, rng):
         execs += random_rs(rng, 100 if q else 1500, 40 if q else 255, cbs=cbs_all)
     elif pid == "C07":
         # lengths, alignments, limits
-        for length in ([1, 2, 3, 7, 8, 9, 15, 16, 17, 31, 32, 33] + ([] if q else [63, 64, 65, 1024])):
+        for length in ([1, 2, 3, 4, 5, 7, 8, 9, 12, 15, 16, 17, 20, 24, 28, 31, 32, 33, 44] + ([] if q else [47, 63, 64, 65, 100, 1024, 1316])):
             for align in (0, 1, 3, 4, 7):
                 for (c, k, r, m, n1) in ((3, 5, 4, 0, 3), (1, 4, 3, 0, 0), (2, 4, 3, 4, 0), (2, 4, 3, 8, 0)):
                     p = P(c, k, r, m=m, N1=n1, seed=3, length=length, payload="rnd", align=align)
@@ -341,6 +353,10 @@ def run(pid, tier):
         strict = pid in ("C04", "C01", "C03", "C10")
         api = apicheck.run_api(bdir, drv, lines, spec="ApiTrace+LdpcItTrace" if strict else "ApiTrace",
                                drv_env={"OF_DRIVER_ITPROJ": "48"} if strict else None)
+        if pid == "C02":
+            for mm in api["msgs"]:
+                if "INFRA" not in mm["tags"] and "C06" in mm["tags"] and pid not in mm["tags"]:
+                    mm["tags"].append(pid)      # a non-canonical generator row voids the MDS argument
         apicheck.judge(pid, api, verdict)
         rc = verdict.finish()
         for dline in api["drift"][:5]:
